@@ -11,6 +11,7 @@ def register(w):
         "key": K,
         "base": "NodeTransformer",
         "state": {"_stream": "py", "_found_types": "dict"},
+        "property_of": {"stream": "_stream"},
         # hypothesis: visiting a well-formed node gives a well-formed node of the same class family;
         # the only refusals are ValueErrors
         "visit_requires": ["wf(node)"],
@@ -49,3 +50,33 @@ def register(w):
             "modifies": ["*"],
             "properties": ["C10", "C08"],
         })
+    # C09: the callbacks registered on the class and on the method fire in that order, each once,
+    # each receives the stream returned by the previous one and the call node as rewritten so far;
+    # nothing else is called; the transformer's stream is the last one returned
+    C.register(w, {
+        "key": f"{K}.process_method_callbacks",
+        "self": K,
+        "params": {"obj_type": "py", "node": "py", "call_method": "py"},
+        "requires": ["is_node(node)"],
+        "ghost": {"hc": "has_cb(obj_type)", "hm": "has_cb(call_method)"},
+        "raises": {"AssertionError": "any"},
+        "ensures": [
+            "n_calls() == (1 if hc else 0) + (1 if hm else 0)",
+            "implies(hc, same(call_fn(0), cb_of(obj_type)) and same(call_arg(0, 0), old(self._stream)) "
+            "and same(call_arg(0, 1), node))",
+            "implies(hc and hm, same(call_fn(1), cb_of(call_method)) and "
+            "same(call_arg(1, 0), nth(call_result(0), 0)) and same(call_arg(1, 1), nth(call_result(0), 1)))",
+            "implies(not hc and hm, same(call_fn(0), cb_of(call_method)) and "
+            "same(call_arg(0, 0), old(self._stream)) and same(call_arg(0, 1), node))",
+            "implies(not hc and not hm, same(result, node) and same(self._stream, old(self._stream)))",
+            "implies(hm, same(result, nth(call_result(n_calls() - 1), 1)) and "
+            "same(self._stream, nth(call_result(n_calls() - 1), 0)))",
+            "implies(hc and not hm, same(result, nth(call_result(0), 1)) and "
+            "same(self._stream, nth(call_result(0), 0)))"],
+        "modifies": ["*"],
+        "opaque_call_assumes": ["isinstance(call_result, tuple)", "len(call_result) == 2"],
+        "assumes": ["protocol of user callbacks: each returns a (stream, node) pair (assumed of every "
+                    "opaque call; a callback that does not makes the unpacking raise)"],
+        "properties": ["C09"],
+    })
+
